@@ -53,6 +53,7 @@ pub struct ProjectOpts {
     pub outside_docs: bool,
     pub max_files: usize,
     pub closed_imports: bool,
+    pub cover_fragments: bool,
 }
 
 pub const SANDBOX: &str = "/nvw";
@@ -229,6 +230,7 @@ pub fn gen_project(rng: &mut Rng, o: &ProjectOpts) -> Project {
             cycles: o.cycles,
             plain: o.schema.plain,
             closed_imports: o.closed_imports,
+            cover_fragments: o.cover_fragments,
             dirs: dirs.clone(),
         },
     );
